@@ -877,6 +877,23 @@ func streamCont(o *Out, r *rand.Rand, n int, thorough bool) {
 		{"x = make(S)\nx.a", "ERROR"}, {"x = make(S)\nx.a = 7", "ERROR"}, {"x = make(S)\nx.c", "ERROR"}, {"x = make(S)\nx.d = {}", "ERROR"},
 		{"x = make(struct { A int64, Total string })\nr = \"stored\"\ntry {\nx.total += \"x\"\n} catch e {\nr = \"failed\"\n}\n[r, x.Total]", "[]iface[string:" + hexOf("failed") + " string:]"},
 		{"x = make(struct { A int64 })\nr = \"stored\"\ntry {\nx.a++\n} catch e {\nr = \"failed\"\n}\n[r, x.A]", "[]iface[string:" + hexOf("failed") + " int64:0]"},
+		// an argument read from a slot is a value once evaluated: a LATER argument (or the rest of the body before a deferred call runs)
+		// that stores into the slot does not change it
+		{"t = make([]int64, 1)\nt[0] = 1\nfunc bump() { t[0] = 2; return 0 }\nfunc first(a, b) { return a }\nfirst(t[0], bump())", "int64:1"},
+		{"t = [1]\nfunc bump() { t[0] = 2; return 0 }\nfunc first(a, b) { return a }\nfirst(t[0], bump())", "int64:1"},
+		{"x = make(S)\nx.A = 1\nfunc bump() { x.A = 2; return 0 }\nfunc first(a, b) { return a }\nfirst(x.A, bump())", "int64:1"},
+		{"t = make([]int64, 1)\nt[0] = 1\nfunc bump() { t[0] = 2; return 0 }\nfunc six(a, b, c, d, e, f) { return a }\nsix(t[0], bump(), 0, 0, 0, 0)", "int64:1"},
+		{"t = make([]int64, 1)\nt[0] = 1\nseen = nil\nfunc rec(v) { seen = v }\nfunc g() {\ndefer rec(t[0])\nt[0] = 9\n}\ng()\nseen", "int64:1"},
+		{"t = [1, 2]\nseen = nil\nfunc recv(v...) { seen = v[0] }\nfunc g() {\ndefer recv(t...)\nt[0] = 9\n}\ng()\nseen", "int64:9"},
+		{"t = make([]int64, 2)\nt[0] = 1\nseen = nil\nfunc recv(v...) { seen = v[0] }\nfunc g() {\ndefer recv(t...)\nt[0] = 9\n}\ng()\nseen", "int64:1"},
+		// a compound assignment on a variable gives the variable the result of the operator - its type included - wherever the variable's
+		// value came from
+		{"ints = make([]int64, 1)\nints[0] = 1\nn = ints[0]\nn += 0.5\nn", "float64:1.5"},
+		{"ints = make([]int64, 1)\nints[0] = 3\nvar n = ints[0]\nn /= 2\nn", "float64:1.5"},
+		{"i32 = make([]int32, 1)\ni32[0] = 1\nn = i32[0]\nn += 3000000000\nn", "int64:3000000001"},
+		{"ints = make([]int64, 1)\nints[0] = 1\nfunc f(n) {\nn += 0.5\nreturn n\n}\nf(ints[0])", "float64:1.5"},
+		{"ints = make([]int64, 2)\nints[0] = 1\nr = nil\nfor n in ints {\nn += 0.5\nif r == nil {\nr = n\n}\n}\nr", "float64:1.5"},
+		{"x = make(S)\nx.A = 1\nn = x.A\nn += \"s\"\nn", "string:" + hexOf("1s")},
 		{"x = make(S)\ny = x\ny.A = 4\n[x.A, y.A]", "SKIP"},
 		{"x = make(S)\nx.Nope = 1", "ERROR"}, {"x = make(S)\nx.Nope", "ERROR"}, {"x = make(S)\nx.A = 3\nx.A", "int64:3"},
 		{"x = make(S)\nx.C = [1, 2]\nx.C[1]", "int64:2"}, {"x = make(S)\nx.D = {\"a\": 1}\nx.D.a", "int64:1"}, {"x = make(S)\nx.G = [1]\nx.G", "[]iface[int64:1]"},
